@@ -282,8 +282,9 @@ def main():
     # ---- evidence
     obligations = sum(len(r["obligations"]) for r in results)
     discharged = sum(1 for r in results for e in r["obligations"].values() if e["success"])
-    k_complete = [k for k in kres if k.get("complete")]
-    k_bounded = [k for k in kres if not k.get("complete")]
+    k_complete = [k for k in kres if k.get("complete") and not k.get("probe")]
+    k_bounded = [k for k in kres if not k.get("complete") and not k.get("probe")]
+    k_probes = [k for k in kres if k.get("probe")]   # known-finding probes: never counted as obligations
     obligations += len(k_complete)
     discharged += sum(1 for k in k_complete if k["status"] == "ok")
     samples = []
@@ -309,6 +310,7 @@ def main():
                        "canary": r["canary"], "functions_under_contract": r["functions_under_contract"]} for r in results],
             "kani_complete": [{k2: k[k2] for k2 in ("harness", "status", "wall_s", "bound", "what")} for k in k_complete],
             "bounded_obligations": [{k2: k[k2] for k2 in ("harness", "status", "wall_s", "bound", "what")} for k in k_bounded],
+            "known_finding_probes": [{k2: k[k2] for k2 in ("harness", "status", "wall_s", "what")} for k in k_probes],
             "undecided": undecided,
             "samples": samples[:25] or [{"note": "no extracted function with a contract"}],
             "not_covered": conf.get("not_covered", []),
